@@ -52,6 +52,10 @@ type SSOCase struct {
 	// GoneAtPersist: the user agent goes away (request context cancelled) at the moment the IdP asks the storage to persist the
 	// request; the storage completes the write all the same.
 	GoneAtPersist bool `json:"gone_at_persist,omitempty"`
+	// FaultKind: the shape of the persist failure when PersistFault is set ("" = plain error); LookupFault: the service
+	// provider lookup fails in that way ("" = it does not)
+	FaultKind   string `json:"fault_kind,omitempty"`
+	LookupFault string `json:"lookup_fault,omitempty"`
 }
 
 func (c SSOCase) hasDefect(name string) bool {
